@@ -8,6 +8,8 @@ import (
 	"encoding/json"
 	"strings"
 
+	sdk "github.com/cosmos/cosmos-sdk/types"
+
 	aoltypes "github.com/medibloc/panacea-core/v2/x/aol/types"
 	didtypes "github.com/medibloc/panacea-core/v2/x/did/types"
 	pnfttypes "github.com/medibloc/panacea-core/v2/x/pnft/types"
@@ -21,6 +23,8 @@ func (c *Chain) keyParts(k string) []any {
 			out = append(out, n)
 		} else if n, ok := topicRev[p]; ok {
 			out = append(out, n)
+		} else if _, err := sdk.AccAddressFromBech32(p); err == nil {
+			out = append(out, c.acctName(p)) // an address outside the dictionary: named like the projection names it
 		} else {
 			out = append(out, p)
 		}
